@@ -125,12 +125,13 @@ fn worker(id: &str, tier: Tier, shard: usize, nshards: usize, seed: u64, out: &s
         })
         .unwrap();
     // hang watchdog: no heartbeat for HANG_SECS => leave the current case behind, exit 4
-    let hang_secs: u64 = std::env::var("P2V_HANG_SECS").ok().and_then(|s| s.parse().ok()).unwrap_or(30);
+    let env_hang: Option<u64> = std::env::var("P2V_HANG_SECS").ok().and_then(|s| s.parse().ok());
     let mut last = beat_count();
     let mut last_change = Instant::now();
     while !handle.is_finished() {
         std::thread::sleep(Duration::from_millis(50));
         let b = beat_count();
+        let hang_secs = env_hang.unwrap_or_else(hang_limit);
         if b != last {
             last = b;
             last_change = Instant::now();
